@@ -18,6 +18,7 @@ CONSTANTS N,            \* scopes 1..N
           FullY,        \* TRUE: y may be used in every way; FALSE: load / store / walrus only (smaller space)
           Skeleton,     \* TRUE: only the scope skeleton module > function > function > {comprehension, lambda | comprehension | function} (PEP 709 shapes, N = 5)
           AnyOrder,     \* TRUE: the assigner may process bindings in any order; FALSE: one fixed order (outer scopes first), for the large skeleton
+          ChainOnly,    \* TRUE: only the scope tree that is one chain 1 > 2 > ... > N (deep nesting: class in class in function ...)
           AllOptions    \* TRUE: every option combination; FALSE: rename_locals and rename_globals on, nothing preserved, not tainted
 Names == IF NNames = 1 THEN {"x"} ELSE {"x", "y"}
 Scopes == 1..N
@@ -56,7 +57,7 @@ ValidUses(k) == IF Skeleton /\ k = "m" THEN {[n \in Names |-> {}]}
 RECURSIVE SeqProd(_)
 SeqProd(ks) == IF ks = <<>> THEN {<<>>}
                ELSE { <<u>> \o r : u \in ValidUses(Head(ks)), r \in SeqProd(Tail(ks)) }
-Trees    == IF Skeleton THEN {<<0, 1, 2, 3, 3>>} ELSE { p \in [Scopes -> 0..N] : p[1] = 0 /\ \A s \in 2..N : p[s] >= 1 /\ p[s] < s }
+Trees    == IF Skeleton THEN {<<0, 1, 2, 3, 3>>} ELSE IF ChainOnly THEN {[s \in Scopes |-> s - 1]} ELSE { p \in [Scopes -> 0..N] : p[1] = 0 /\ \A s \in 2..N : p[s] >= 1 /\ p[s] < s }
 KindSeqs == IF Skeleton THEN {<<"m", "f", "f", "g", "l">>, <<"m", "f", "f", "g", "g">>, <<"m", "f", "f", "g", "f">>}
             ELSE { k \in [Scopes -> {"m", "f", "c", "g", "l"}] : k[1] = "m" /\ \A s \in 2..N : k[s] # "m" }
 
